@@ -184,6 +184,22 @@ def to_number(value: JSValue) -> Union[int, float]:
     return float("nan")
 
 
+def to_integer_or_infinity(value: JSValue) -> Union[int, float]:
+    """ToIntegerOrInfinity: a Python int, or float +/-Infinity.
+
+    NaN becomes 0 and fractions are truncated towards zero.  (Plain
+    int(to_number(x)) raises ValueError / OverflowError for NaN / Infinity.)
+    """
+    number = to_number(value)
+    if isinstance(number, int):
+        return number
+    if math.isnan(number):
+        return 0
+    if math.isinf(number):
+        return number
+    return int(number)
+
+
 def _number_to_string(value: float) -> str:
     """Number::toString(x, 10) for a finite non-zero double.
 
